@@ -29,7 +29,9 @@ def dispatchC03M (op : String) (j : Json) : M Json := do
       let (t, _) ← parseTable j
       let xs ← fRats j "xs"
       let grid ← match fOpt j "wl" with
-        | some w => asRats w
+        | some w => do
+            let g ← asRats w
+            pure (if isDesc g then g.reverse else g)      -- cfa13db: ascending order whatever the caller's
         | none => pure t.pts
       -- `scale` k: the spectrum is the composite table x k (not itself a table): its end values are sampled at
       -- the would-be new end points, and the tapered table keeps what the composite samples (06626d1)
